@@ -1011,6 +1011,12 @@ def np_nanmean(I, args, kwargs):
         return out
     if a.ndim == 2 and axis == 1 and getattr(a, "view_of", None):
         return row_agg_of_view(I, name, a)
+    if a.ndim == 2 and axis in (1, -1):
+        # a computed matrix (not a window of a named array): one uninterpreted value per row, recorded with its argument
+        f = I.ctx.fresh_fun(name + "_row", z3.IntSort(), z3.RealSort())
+        out = SArr((a.shape[0],), lambda i: f(to_z3(i)), "real", "ndarray")
+        I.ctx.trace.append(Event(None, name, [a], {"axis": 1}, out, getattr(I.ctx, "loop_k", None)))
+        return out
     raise Undecided(f"np.{name} with axis={axis} on {a.ndim}-d array")
 
 
@@ -1402,6 +1408,12 @@ _old_reshape3 = arr_reshape2
 @method("arr", "reshape")
 def arr_reshape3(I, recv, args, kwargs):
     """2-d -> 2-d with one inferred dimension: (r, c).reshape(-1, c2) / (r2, -1), C order"""
+    if len(args) == 1 and isinstance(args[0], SArr) and args[0].ndim == 1 and not is_sym(args[0].len):
+        # shape given as a small integer array (e.g. np.ones(ndim) with one entry set to -1)
+        vals_ = [simp(args[0].fn(k)) for k in range(args[0].len)]
+        if any(is_sym(v) for v in vals_):
+            raise Undecided("reshape with a symbolic shape array")
+        return I.lib.call_method(I, recv, "reshape", [int(v) for v in vals_], kwargs)
     shp = list(args[0].items) if len(args) == 1 and isinstance(args[0], SList) else list(args)
     a = recv
 
@@ -1535,3 +1547,19 @@ def inplace_array_update(I, target_expr, old, new, env):
         seen += 1
     sq = getattr(old, "_agg_key", None)
     _rebind(I, target_expr, new, env, old)
+
+
+@method("arr", "mean")
+def arr_mean_m(I, recv, args, kwargs):
+    """a.mean(): uninterpreted aggregate of all cells (recorded)"""
+    from .libmodels import Event
+    if args or kwargs:
+        return np_nanmean2(I, [recv] + list(args), kwargs) if False else _arr_mean_axis(I, recv, args, kwargs)
+    USED.add("ndarray.mean(): uninterpreted aggregate, recorded with its argument")
+    r = I.ctx.fresh_real("mean")
+    I.ctx.trace.append(Event(None, "mean", [recv], {}, r, getattr(I.ctx, "loop_k", None)))
+    return r
+
+
+def _arr_mean_axis(I, recv, args, kwargs):
+    raise Undecided("ndarray.mean with arguments")
